@@ -70,7 +70,9 @@ def _case(draw):
     variant = draw(st.sampled_from(['stream', 'stream', 'datagram']))
     framing = draw(st.sampled_from(['tcp', 'tcp', 'rtu', 'ascii', 'binary']))
     single = draw(st.booleans())
-    hosted = sorted(draw(st.lists(st.sampled_from([0, 1, 2, 17, 247]), min_size=1, max_size=3, unique=True))) if not single else [0]
+    # hosting unit 0 switches the framers' unit filter off: most multi-unit contexts are drawn without it
+    pool = draw(st.sampled_from([[1, 2, 17, 247], [1, 2, 17, 247], [0, 1, 2, 17, 247]]))
+    hosted = sorted(draw(st.lists(st.sampled_from(pool), min_size=1, max_size=3, unique=True))) if not single else [0]
     nconn = draw(st.integers(1, 3))
     conns = []
     tid = 0
